@@ -126,6 +126,16 @@ static inline unsigned long long C09_strtoull(const char* nptr, char** endptr, i
   return g_num;
 }
 
+/* strtoll / strtol / strtoul: a different conversion (range of long long / long: numerals from 2^63 up saturate) -- its result is not the
+ * strtoull value g_num the contract of the number branch speaks about */
+long long nondet_c09_ll(void);
+static inline long long C09_strtoll(const char* nptr, char** endptr, int base)
+{
+  C09_STRTO_COMMON(4)
+  g_st_base = base;
+  return nondet_c09_ll();
+}
+
 static inline double C09_strtod(const char* nptr, char** endptr)
 {
   C09_STRTO_COMMON(2)
